@@ -179,6 +179,34 @@ def dnsSpecOK (tbl : List Entry) (host : Bytes) (qt : Nat) (rc : Nat) (obs : Dns
   | some o => specOK tbl (lower host) qt o
   | none => false
 
+/-! ### The configured list over a history of operations
+
+Written from the API description (AGHTechDoc "API: Add / Remove a rewrite
+entry", openapi `rewrite/update`): the configuration is a list of
+`domain → answer` pairs; *add* appends one, *delete* removes the entries whose
+stored pair is the given one, *update* replaces the first such entry (and fails
+when there is none); saving the configuration changes nothing.  At every moment
+the table the server answers from must be that list, normalized. -/
+
+def replaceFirstRaw (p : Raw → Bool) (n : Raw) : List Raw → Option (List Raw)
+  | [] => none
+  | r :: rs => if p r then some (n :: rs) else (replaceFirstRaw p n rs).map (r :: ·)
+
+def editRaws (rs : List Raw) : TableOp → List Raw
+  | .write => rs
+  | .add r => rs ++ [r]
+  | .del d a => rs.filter (fun r => !sameKey d a (normalize r))
+  | .upd td ta u => (replaceFirstRaw (fun r => sameKey td ta (normalize r)) u rs).getD rs
+
+/-- One row of a dump of the live table: pattern, answer, record type, address. -/
+abbrev Row := Bytes × Bytes × Nat × Bytes
+
+def rowOf (e : Entry) : Row := (e.domain, e.answer, e.typ.code, e.ip.getD [])
+
+/-- The live table is the configured list, normalized (derived type and address
+included). -/
+def tableOK (rs : List Raw) (dump : List Row) : Bool := dump == (prepare rs).map rowOf
+
 /-! ### Prop-level vocabulary for the order-independence theorems -/
 
 /-- No two different, equally specific entries compete for a query of type
